@@ -1,3 +1,4 @@
+import TmcgProps.C17Jl
 import TmcgProofs.Coin
 /-
   C17 — Distributed coin flips are common and bound by commitments.  Property theorems only
